@@ -40,7 +40,7 @@ CHECKS["C02"] = {
 CHECKS["C10"] = {
     "engine": "core/hasher_bfs", "category": "model_checking", "design_ref": "DESIGN.md 3/C10",
     "technique": "explicit-state BFS over the real Hasher with reset and set_input_offset as operations; differential oracle = freshly constructed hasher",
-    "text": "The C02 state space extended with reset() from every reachable state and set_input_offset at count()==0 for offsets up to 2^42. Every post-reset state must equal, field for field, a newly constructed hasher of the same mode (and therefore merges with the initial state and is explored again); clone independence is checked on every state in both directions, on the complete state and observationally (after every operation on a clone, followed by a finalize of the clone, the original is re-observed against the spec). The trait-level resetting variants (digest::Reset, FixedOutputReset, ExtendableOutputReset, Digest::finalize_reset) are covered by running the C16 traits lane as a second step.",
+    "text": "The C02 state space extended with reset() from every reachable state and set_input_offset at count()==0 for offsets up to 2^42. Every post-reset state must equal, field for field, a newly constructed hasher of the same mode (and therefore merges with the initial state and is explored again); clone independence is checked on every state in both directions, on the complete state and observationally; clone_from into a hasher of another mode with a history of its own must give the source's state; set_input_offset may be repeated before any input (the last call wins); after every reset the hasher is also driven through three update plans and compared with the spec (a reset hasher behaves like a new one, whatever a state copy may not show) (after every operation on a clone, followed by a finalize of the clone, the original is re-observed against the spec). The trait-level resetting variants (digest::Reset, FixedOutputReset, ExtendableOutputReset, Digest::finalize_reset) are covered by running the C16 traits lane as a second step.",
     "note": "Trusted: b3spec, H4 hook. Offsets limited to {1024, 3072, 4096, 65536, 2^42, 2^42+2048}.",
 }
 
